@@ -17,7 +17,7 @@ theorem Node.flushed_abs (nd : Node α) : ((nd.abs).filter (·.2)).map (·.1) = 
   simp [Function.comp_def]
 
 /-- the flushed bytes of the abstract stream are the readable bytes of the nodes -/
-theorem flushed_absL (ns : List (Node α)) :
+theorem flushed_absL_b (ns : List (Node α)) :
     ((absL ns).filter (·.2)).map (·.1) = ns.flatMap Node.readable := by
   induction ns with
   | nil => rfl
@@ -42,7 +42,7 @@ theorem flushedBytes_eq {b : LB α} {q : Q α} (hR : R b q) (hd : q.dead = false
   have hsh := hR.shape hd
   have h1 : q.flushedBytes = (b.nodes.drop b.r).flatMap Node.readable := by
     unfold Q.flushedBytes
-    rw [← hR.abs, LB.abs_eq, flushed_absL]
+    rw [← hR.abs, LB.abs_eq, flushed_absL_b]
   rw [h1]
   conv => lhs; rw [← List.take_append_drop (b.f + 1 - b.r) (b.nodes.drop b.r)]
   rw [List.flatMap_append,
